@@ -355,6 +355,25 @@ impl LedgerCheck {
                     }
                     // the limit error was swallowed / mapped by the code it interrupted: an observation, the threshold still counts
                     ctx.stats.bump("probe.limit_error_surfaced_as_other_error");
+                } else if kind != 0 && kind != 7 {
+                    // the error reports the offending size: a transaction may only be failed for a size
+                    // that really exceeds the limit in force ("one that stays within them is not failed")
+                    let tail = &why[why.find(error).unwrap() + error.len()..];
+                    let numbers: Vec<usize> = tail
+                        .split(|c: char| !c.is_ascii_digit())
+                        .filter(|s| !s.is_empty())
+                        .take(2)
+                        .filter_map(|s| s.parse().ok())
+                        .collect();
+                    if let Some(actual) = numbers.first() {
+                        ctx.stats.bump("limit.reported_size_checked");
+                        if *actual <= v {
+                            return Err((
+                                "c49.failed_although_within_limit".into(),
+                                format!("step {:?}: with {} = {} the transaction is failed with {} reporting a size of {} which does not exceed the limit", step, name, v, error, actual),
+                            ));
+                        }
+                    }
                 }
                 Ok(false)
             };
